@@ -181,6 +181,9 @@ def tree_fail_messages(node, acc, under_filter=False):
     k, v = obs.container_kind(node)
     if k == "Filter":
         return
+    if k in ("Disjunction",) and obs.node_status(node) in ("PASS", "SKIP"):
+        # an `or` line that passed (through a later alternative) is no failed check, whatever failed alternatives lie below it
+        return
     if k == "ClauseValueCheck" and isinstance(v, dict):
         (ck, cv), = v.items()
         msg = None
